@@ -209,11 +209,14 @@ def run(ctx):
         samples=samples, schemas=len(exh) + len(big), schemas_exhaustive=len(exh), trees=ntrees, replay_events=nreplay,
         fuzz_events=fst["events"], fuzz_fatal=fst["fatal"], class_string_maxlen=maxlen, random_inputs=nrand, exhaustive=True,
         explanation="TLC explored every valid tree of every selected one- and two-item schema of the menu (thorough: all 31 + 465) on the spec (round trip, mutants), "
+                    "plus the sized trees (every list / leaf-list with 1, 2, 12, 13, 20, 40, 100 entries - 2, 13, 40 beside other items - in four arrangements "
+                    "of the children of every node, and their XML documents with entries interleaved with sibling elements), "
                     "generated them with single-point mutants of the three encodings; the real encoders/decoders were run on all of "
                     "them, on every class string up to the length bound in three contexts and on seeded random bytes; every outcome "
                     "was judged by EncodingTrace")
     return ctx.finish(cov, [
         "schemas are subsets of a 31-item menu (EncodingSets.tla): built-in types without restrictions, one augmenting module, one level of identity derivation",
+        "collection sizes are 1, 2, 12, 13, 20, 40, 100 entries (one-item schemas) and 2, 13, 40 (larger schemas); at most 31 + entries sibling nodes under one parent",
         "values are canonical lexical forms; accepted but non-canonical numeric lexemes, white space around XML values, wrong member-name prefixes, trailing content after the XML root and empty leaf-list nodes are not judged",
         "plain JSON = RFC 7951 with unqualified names, all integers as numbers, empty as null",
         "outputs are re-read with encoding/json (UseNumber) and encoding/xml before TLC compares them with the predicted document",
@@ -247,7 +250,8 @@ MANIFEST = {
  "C19": dict(text="Encoding.tla holds data trees over a schema and abstract JSON / RFC 7951 / XML documents with Enc*/Dec* operators written "
              "from RFC 7951 and the RFC 6020 XML mapping rules, token-level recognisers, Conforms and NotAltered. TLC checks on every valid tree "
              "of every one- and two-item schema of a 31-item menu (all built-in types with 64-bit extremes, decimal64, empty, foreign identities, "
-             "strings needing escaping, both list orderings, nesting, an augment) that decode(encode(t)) = t for the three codecs and classifies "
+             "strings needing escaping, both list orderings, nesting, an augment; collections with 1 to 100 entries in several arrangements of the "
+             "sibling nodes, entries interleaved with siblings in XML) that decode(encode(t)) = t for the three codecs and classifies "
              "every single-point mutant. TLC generates the schemas as YANG, the trees and the mutants; the harness runs the real encoders and "
              "decoders on them, on every token-class string to a length bound and on seeded random bytes (child processes, panic trap); "
              "EncodingTrace judges every recorded event: written document = predicted document, decoder outcome allowed by the spec, no panic, "
